@@ -1,4 +1,5 @@
 import GqlModel.Lexer.Model
+import GqlModel.Lexer.Spec
 /-  Wire observations for the lexer ops of the driver. -/
 namespace Gql.Ops
 open Gql Gql.Lexer
@@ -33,7 +34,31 @@ def opUtf8 : List String → String
     | none => "bad-hex"
   | _ => "bad-args"
 
+/-- `lexspec <hex>`: what the SPECIFICATION prescribes for a valid UTF-8 input, in the format of `lex`
+    (tokens incl. comments and the final EOF, then `|OK`, or the tokens before the failure and `|E`). -/
+def opLexSpec : List String → String
+  | [h] => match fromHex h with
+    | some bs =>
+      let cps := runesOf bs.length bs
+      if utf8Encode cps ≠ bs then "NOTUTF8"
+      else match Spec.lex cps with
+        | .ok ts =>
+          let eof : Spec.STok := { kind := .eof, value := [], start := cps.length, stop := cps.length }
+          obsTokens ((ts ++ [eof]).map (Spec.toToken cps)) ++ "|OK"
+        | .error ts => obsTokens (ts.map (Spec.toToken cps)) ++ "|E"
+    | none => "bad-hex"
+  | _ => "bad-args"
+
+/-- `bsvspec <hex>`: BlockStringValue() of the specification on a raw value (valid UTF-8) -/
+def opBsvSpec : List String → String
+  | [h] => match fromHex h with
+    | some bs =>
+      let cps := runesOf bs.length bs
+      if utf8Encode cps ≠ bs then "NOTUTF8" else toHexW (utf8Encode (Spec.blockStringValue cps))
+    | none => "bad-hex"
+  | _ => "bad-args"
+
 def lexOps : List (String × (List String → String)) :=
-  [("lex", opLex), ("bsv", opBsv), ("utf8", opUtf8)]
+  [("lex", opLex), ("bsv", opBsv), ("utf8", opUtf8), ("lexspec", opLexSpec), ("bsvspec", opBsvSpec)]
 
 end Gql.Ops
